@@ -21,7 +21,7 @@ ASSUMPTIONS = [
 CASES = {"quick": 8000, "thorough": 300000}
 MIN_CASES = {"quick": 3000, "thorough": 60000}
 REQUIRED_CLASSES = ["stog", "near_gap", "near_overhang", "near_overlap", "dup_trunk", "dup_branch", "bag", "equal_area"]
-REQUIRED_COUNTERS = ["calls_judged", "judged_true", "judged_false", "roles_checked", "identity_checked", "via:netlist", "via:module", "via:direct", "netlist_kind:soft", "netlist_kind:hard", "netlist_kind:fixed", "re_recognition_after_in_place_change", "via:netlist_api"]
+REQUIRED_COUNTERS = ["explicit_distance_and_area_tolerance", "calls_judged", "judged_true", "judged_false", "roles_checked", "identity_checked", "via:netlist", "via:module", "via:direct", "netlist_kind:soft", "netlist_kind:hard", "netlist_kind:fixed", "re_recognition_after_in_place_change", "via:netlist_api"]
 
 _g = None
 _mod = None
@@ -281,8 +281,16 @@ def check(case, ctx):
         perms = perms[:6]
     for perm in perms:
         g.Rectangle.undefine_epsilon()
+        explicit = None
         if via != "netlist":
-            g.Rectangle.set_epsilon(1e-12 * smallest)
+            if case["pseed"] % 4 == 0:
+                # both tolerances given explicitly (the two-argument form): the reference below uses the values handed over,
+                # not what the accessors say afterwards
+                explicit = (1e-12 * smallest, 1e-4 * smallest)
+                g.Rectangle.set_epsilon(*explicit)
+                ctx.count("explicit_distance_and_area_tolerance")
+            else:
+                g.Rectangle.set_epsilon(1e-12 * smallest)
         order = [specs[k] for k in perm]
         if via == "netlist":
             kind = ["soft", "hard", "fixed"][case["pseed"] % 3]
@@ -324,6 +332,8 @@ def check(case, ctx):
             objs = objs_after
         eps = F(g.Rectangle.distance_epsilon())
         aeps = F(g.Rectangle.area_epsilon())
+        if explicit is not None:
+            eps, aeps = F(explicit[0]), F(explicit[1])
         # identity / values
         ctx.count("identity_checked")
         if before is not None:
